@@ -4,7 +4,9 @@
    - an unknown tiebreak name is a ValueError exactly when the tiebreak is consulted (STV round,
      TopTwo / Alaska first stage, PluralityVeto veto loop; the one-shot rules are in
      Proofs/C05_tiebreaks.v);
-   - the random transfer checks the weights of a pile only when that pile is transferred. *)
+   - the random transfer: since the fix "refuse non-integer weights up front" the constructor
+     (stv_init) raises TypeError for any non-integral weight; the old lazy check (made on a pile
+     when that pile is transferred) is still in the transfer function but no run reaches it. *)
 From VK Require Import Base Core STV Pairwise Rules PV Election.
 From VK.Spec Require Import ScoreSpec EditSpec RatingSpec TopMSpec STVSpec Anon TieSpec PairwiseSpec RunSpec
   OneShotSpec UpfrontSpec.
@@ -594,32 +596,125 @@ Proof.
     apply (stv_loop_no_type_error _ cfg t _ p p [s0] s (stv_inv_init cand ceqb cfg p t s0 Hwf Ei E0)).
     + intros H. apply (Hk H).
     + intros H. apply (Hk H).
-  - intros He. injection He as ->. destruct (stv_init_err cand cfg p EType Hwf Ei). discriminate.
+  - intros He. injection He as ->.
+    destruct (stv_init_err cand cfg p EType Hwf (fun H => proj2 (Hk H)) Ei). discriminate.
 Qed.
 
-(* the first round: the single top candidate reaches the threshold and owns a ballot of
-   non-integral weight *)
-Theorem run_stv_first_transfer_type_error : forall cfg (p : profile) (s : mstate) t s0 w rest,
-  wf_stv0 p -> s_transfer cfg = TRandom ->
-  stv_init cfg p = inl t -> initial_state cand ceqb p = inl s0 ->
-  remaining s0 = [w] :: rest -> t <= tally w (ballots p) ->
-  (exists b, In b (ballots p) /\ first_is cand ceqb w b = true /\ is_integral (wt b) = false) ->
-  run_stv cfg p s = inr EType.
+(* ---- the up-front check of the random transfer (STV.__init__) ---- *)
+
+Lemma nonint_forallb : forall bs : list ballot,
+  (exists b, In b bs /\ is_integral (wt b) = false) <->
+  forallb (fun b => is_integral (wt b)) bs = false.
+Proof. intros bs. symmetry. apply (forallb_integral_false_iff cand). Qed.
+
+(* with the random transfer, EVERY profile that passes the ranking / no-tie validation and has a
+   non-integral weight is refused with TypeError by the constructor — whatever the seat count, the
+   quota name, the other options and the script of draws — hence by the run and by the rule *)
+Theorem random_nonintegral_type_error : forall cfg (p : profile),
+  stv_validate cand p = inl tt -> s_transfer cfg = TRandom ->
+  (exists b, In b (ballots p) /\ is_integral (wt b) = false) ->
+  stv_init cfg p = inr EType /\ upfront (RSTV cfg) p = inr EType /\
+  forall s : mstate, run_stv cfg p s = inr EType /\ run_rule (RSTV cfg) p s = inr EType.
 Proof.
-  intros cfg p s t s0 w rest Hwf Hk Hi H0 Hr Ht Hb.
-  rewrite (run_stv_unfold cand ceqb), Hi, H0.
-  destruct (initial_state_inv cand ceqb p s0 H0) as (Hst & Hel & _).
-  assert (Hctx : step_ctx p p s0) by (constructor; [exact Hwf|apply incl_refl|exact Hwf|exact Hst]).
-  assert (Hcnt : count_elected cand [s0] = 0%Z).
-  { unfold STV.count_elected. cbn [map concat]. rewrite Hel. reflexivity. }
-  assert (Hm : (1 <= s_m cfg)%Z).
-  { unfold STV.stv_init, rbind in Hi. destruct (stv_validate cand p); [|discriminate].
-    destruct ((s_m cfg <=? 0)%Z || (Z.of_nat (length (cands p)) <? s_m cfg)%Z) eqn:E; [discriminate|].
-    apply orb_false_iff in E. destruct E as [E _]. apply Z.leb_gt in E. lia. }
-  replace (length (cands p) + 2)%nat with (S (length (cands p) + 1)) by lia.
-  rewrite (stv_loop_unfold cand ceqb), Hcnt.
-  assert (Hne : (0 =? s_m cfg)%Z = false) by (apply Z.eqb_neq; lia). rewrite Hne.
-  rewrite (step_first_transfer_type_error cfg t p p s0 Hctx 0%Z s w rest Hk Hr Ht Hb). reflexivity.
+  intros cfg p Hv Hk Hb. apply nonint_forallb in Hb.
+  pose proof (stv_init_random_nonint cand cfg p Hv Hk Hb) as Hi.
+  assert (Hu : upfront (RSTV cfg) p = inr EType).
+  { cbn [UpfrontSpec.upfront]. rewrite Hi. reflexivity. }
+  split; [exact Hi|]. split; [exact Hu|]. intros s.
+  pose proof (upfront_rejects (RSTV cfg) p EType Hu s) as Hr. split; exact Hr.
+Qed.
+
+(* the check exactly: TypeError iff some weight is not integral; and the constructor goes on to
+   the seat-count / quota checks, as with any other transfer, iff all weights are integral *)
+Theorem random_upfront_iff : forall cfg (p : profile),
+  stv_validate cand p = inl tt -> s_transfer cfg = TRandom ->
+  ((exists b, In b (ballots p) /\ is_integral (wt b) = false) <-> stv_init cfg p = inr EType) /\
+  ((forall b, In b (ballots p) -> is_integral (wt b) = true) <->
+   stv_init cfg p =
+   if ((s_m cfg <=? 0) || (Z.of_nat (length (cands p)) <? s_m cfg))%Z then inr EValue
+   else threshold (s_quota cfg) (s_m cfg) (total_wt cand (ballots p))).
+Proof.
+  intros cfg p Hv Hk.
+  assert (Hrest : (if ((s_m cfg <=? 0) || (Z.of_nat (length (cands p)) <? s_m cfg))%Z
+                   then inr EValue
+                   else threshold (s_quota cfg) (s_m cfg) (total_wt cand (ballots p))) <> inr EType).
+  { destruct ((s_m cfg <=? 0) || (Z.of_nat (length (cands p)) <? s_m cfg))%Z; [discriminate|].
+    unfold threshold. destruct (s_quota cfg); discriminate. }
+  destruct (forallb (fun b => is_integral (wt b)) (ballots p)) eqn:Ef.
+  - assert (Hpast : stv_init cfg p =
+              if ((s_m cfg <=? 0) || (Z.of_nat (length (cands p)) <? s_m cfg))%Z then inr EValue
+              else threshold (s_quota cfg) (s_m cfg) (total_wt cand (ballots p))).
+    { apply (stv_init_past_check cand cfg p Hv). rewrite Ef, andb_false_r. reflexivity. }
+    split; split.
+    + intros Hb. apply nonint_forallb in Hb. congruence.
+    + intros Hi. rewrite Hi in Hpast. exfalso. apply Hrest. symmetry. exact Hpast.
+    + intros _. exact Hpast.
+    + intros _. rewrite forallb_forall in Ef. exact Ef.
+  - pose proof (stv_init_random_nonint cand cfg p Hv Hk Ef) as Hi.
+    split; split.
+    + intros _. exact Hi.
+    + intros _. apply nonint_forallb. exact Ef.
+    + intros Hall. exfalso. apply (proj2 (forallb_forall _ _)) in Hall. congruence.
+    + intros Hp. exfalso. rewrite Hi in Hp. apply Hrest. symmetry. exact Hp.
+Qed.
+
+(* success of the constructor / of the run with the random transfer implies integral weights *)
+Theorem random_success_integral : forall cfg (p : profile),
+  s_transfer cfg = TRandom ->
+  (forall t, stv_init cfg p = inl t -> integral_weights p) /\
+  (forall (s s' : mstate) sts, run_stv cfg p s = inl (sts, s') -> integral_weights p).
+Proof.
+  intros cfg p Hk. split.
+  - intros t Hi. exact (stv_init_ok_integral cand cfg p t Hi Hk).
+  - intros s s' sts H. rewrite (run_stv_unfold cand ceqb) in H.
+    destruct (stv_init cfg p) as [t|e] eqn:Ei; [|discriminate].
+    exact (stv_init_ok_integral cand cfg p t Ei Hk).
+Qed.
+
+(* run level, valid profile: TypeError iff random transfer and a non-integral weight; so the lazy
+   check of the transfer function is never what a run reports: once the constructor has succeeded
+   no round raises TypeError *)
+Theorem run_stv_type_error_iff : forall cfg (p : profile) (s : mstate),
+  wf_stv0 p -> (s_transfer cfg = TRandom -> script_ok s) ->
+  (run_stv cfg p s = inr EType <-> s_transfer cfg = TRandom /\ ~ integral_weights p).
+Proof.
+  intros cfg p s Hwf Hscr. split.
+  - intros H. destruct (s_transfer cfg) eqn:Ek.
+    + exfalso. apply (run_stv_no_type_error cfg p s Hwf); [rewrite Ek; discriminate|exact H].
+    + split; [reflexivity|]. intros Hint.
+      apply (run_stv_no_type_error cfg p s Hwf); [|exact H].
+      intros _. split; [apply Hscr; reflexivity|exact Hint].
+    + exfalso. apply (run_stv_no_type_error cfg p s Hwf); [rewrite Ek; discriminate|exact H].
+  - intros [Hk Hn].
+    destruct (forallb (fun b => is_integral (wt b)) (ballots p)) eqn:Ef.
+    + exfalso. apply Hn. apply (integral_weights_forallb cand). exact Ef.
+    + apply (random_nonintegral_type_error cfg p (stv_validate_ok cand p Hwf) Hk).
+      apply nonint_forallb. exact Ef.
+Qed.
+
+Theorem run_stv_rounds_no_type_error : forall cfg (p : profile) (s : mstate) t,
+  wf_stv0 p -> (s_transfer cfg = TRandom -> script_ok s) ->
+  stv_init cfg p = inl t -> run_stv cfg p s <> inr EType.
+Proof.
+  intros cfg p s t Hwf Hscr Hi H.
+  apply (run_stv_type_error_iff cfg p s Hwf Hscr) in H. destruct H as [Hk Hn].
+  apply Hn. exact (stv_init_ok_integral cand cfg p t Hi Hk).
+Qed.
+
+(* Alaska: the STV stage runs on the profile p1 left by the first stage; the same check refuses
+   it (the condensed weights of p1 are what is tested, as in Python) *)
+Theorem alaska_stage_random_nonintegral : forall m1 m2 cfg (p : profile) (s sa : mstate) s0 p1 s1,
+  alaska_args m1 m2 = inl tt -> ranking_validate p = inl tt -> round0 SKFpv p = inl s0 ->
+  plurality_stage m1 (s_tiebreak cfg) p s0 s = inl ((p1, s1), sa) ->
+  stv_validate cand p1 = inl tt -> s_transfer cfg = TRandom ->
+  (exists b, In b (ballots p1) /\ is_integral (wt b) = false) ->
+  run_alaska m1 m2 cfg p s = inr EType.
+Proof.
+  intros m1 m2 cfg p s sa s0 p1 s1 Ha Hv H0 Hst Hv1 Hk Hb.
+  unfold Rules.run_alaska. rewrite mbind_mlift, Ha. rewrite mbind_mlift, Hv. rewrite mbind_mlift, H0.
+  unfold mbind at 1. rewrite Hst. cbv zeta. rewrite mbind_mlift.
+  assert (Hk2 : s_transfer (with_m cfg m2) = TRandom) by exact Hk.
+  rewrite (proj1 (random_nonintegral_type_error (with_m cfg m2) p1 Hv1 Hk2 Hb)). reflexivity.
 Qed.
 
 End More.
